@@ -131,6 +131,24 @@ def merge_check(tier):
                    failures[:10], "real merge_copyright_lines; holders and years parsed back with the real patterns")
 
 
+def year_options():
+    """--year / --exclude-year plumbing of the annotate command, against literal expectations"""
+    import datetime
+    import itertools as it
+    from reuse.cli.annotate import get_year
+    failures, cases = [], 0
+    table = [((), True, None), (("2019",), True, None), ((), False, str(datetime.date.today().year)), (("2017",), False, "2017")]
+    for ys in (("2016", "2020", "2018"), ("2021", "2015"), ("2018", "2018"), ("1999", "2003", "2001", "2002")):
+        for perm in it.permutations(ys):
+            table.append((perm, False, f"{min(ys)} - {max(ys)}"))
+    for years, exclude, want in table:
+        cases += 1
+        got = get_year(years, exclude)
+        if got != want:
+            failures.append({"years": list(years), "exclude_year": exclude, "problem": f"get_year gives {got!r}, the range spanning every year given is {want!r}", "replayed": True})
+    return Bounded("year-options", "every order of 4 multi-year option lists, single year, no year, --exclude-year", cases, failures[:8], "real get_year")
+
+
 def run(ctx):
     import importlib
     importlib.import_module("contracts.copyright")
@@ -138,6 +156,7 @@ def run(ctx):
     verify_all(ctx, e, FUNCTIONS)
     lemmas(ctx, e, "C20")
     assumed_contracts(ctx, e, "C20")
+    ctx.bounded.append(year_options())
     ctx.bounded.append(builder_reader(ctx.tier))
     ctx.bounded.append(merge_check(ctx.tier))
     ctx.assume("Python's re is the calculus of pyvc.rx (categories enumerated from the running interpreter); code points <= U+2FFFF")
